@@ -4,6 +4,7 @@ import (
 	"context"
 	"fmt"
 
+	apimachineryerrors "k8s.io/apimachinery/pkg/api/errors"
 	"k8s.io/apimachinery/pkg/runtime"
 	ctrl "sigs.k8s.io/controller-runtime"
 	"sigs.k8s.io/controller-runtime/pkg/client"
@@ -20,6 +21,8 @@ type objectSliceLoadReconciler struct {
 	client         client.Client
 	newObjectSlice adapters.ObjectSliceFactory
 	ownerStrategy  ownerStrategy
+	// skipMissing makes the reconciler skip ObjectSlices that no longer exist instead of failing.
+	skipMissing bool
 }
 
 func newObjectSliceLoadReconciler(
@@ -47,6 +50,9 @@ func (r *objectSliceLoadReconciler) Reconcile(
 				Name:      slice,
 				Namespace: objectSet.ClientObject().GetNamespace(),
 			}, objSlice.ClientObject()); err != nil {
+				if r.skipMissing && apimachineryerrors.IsNotFound(err) {
+					continue
+				}
 				return res, fmt.Errorf("getting ObjectSlice: %w", err)
 			}
 
